@@ -258,6 +258,140 @@ def run(ctx):
             if derivable:
                 nviol += 1
     ctx.notes["initializer_model"] = {"strings": len(icases), "parsed_by_both": ni_ok, "rejected_by_model": ni_fail, "left_to_the_declaration": ni_skip, "disagreements": ni_dis}
+    # --- (0c) the struct / union / enum specifier parser model (TagBody.lean; theorems tag_parse_pp / tag_parse_sound / accepts_more_than_C11)
+    # <-> the real parser: every token string up to length 5 (thorough 6) + printed random specifiers and their token mutations, as `T ;`
+    SALPH = ["T", "s", "d", "e", "{", "}", ";", ",", ":", "="]
+    EALPH = ["T", "e", "{", "}", ",", "=", ";", ":"]
+
+    def gen_tag():
+        if rng.random() < 0.5:
+            out = ["struct"] + (["T"] if rng.random() < 0.6 else []) + ["{"]
+            for _ in range(rng.randrange(0, 4)):
+                out += ["s"] * rng.randrange(1, 3)
+                nd = rng.randrange(0, 4)
+                for j in range(nd):
+                    out += ([","] if j else []) + rng.choice([["d"], ["d", ":", "e"], [":", "e"]])
+                out += [";"]
+            return out + ["}"]
+        out = ["enum"] + (["T"] if rng.random() < 0.6 else []) + ["{"]
+        n = rng.randrange(0, 5)
+        for j in range(n):
+            out += ["T"] + (["=", "e"] if rng.random() < 0.4 else []) + ([","] if j + 1 < n or rng.random() < 0.3 else [])
+        return out + ["}"]
+    tstrings = []
+    for n_ in range(0, 5 if ctx.quick else 6):
+        for kw, al in (("struct", SALPH), ("enum", EALPH)):
+            prod = list(_it.product(al, repeat=n_))
+            if len(prod) > 12000:
+                prod = rng.sample(prod, 12000)
+            tstrings += [[kw] + list(p_) for p_ in prod]
+    for _ in range(2500 if ctx.quick else 40000):
+        t = gen_tag()
+        tstrings.append(t)
+        m_ = list(t)
+        al = SALPH if t[0] == "struct" else EALPH
+        for _ in range(rng.randrange(1, 3)):
+            j = rng.randrange(1, len(m_) + 1)
+            r_ = rng.random()
+            if r_ < 0.35 and len(m_) > 1: del m_[min(j, len(m_) - 1)]
+            elif r_ < 0.7: m_.insert(j, rng.choice(al))
+            elif len(m_) > 1: m_[min(j, len(m_) - 1)] = rng.choice(al)
+        tstrings.append(m_)
+    # in a struct body an identifier is a declarator (the model's `d`): `T` stands only directly after the keyword there
+    tstrings = [t for t in tstrings if t[0] == "enum" or not any(t[j] == "T" and j != 1 for j in range(len(t)))]
+    tstrings = [t for t in tstrings if not (len(t) > 1 and t[1] == "d")]        # ... and a declarator there would be read as the tag
+    # an identifier that begins a member declaration is read as a typedef name (a specifier); one after `=` is an expression
+    tstrings = [t for t in tstrings if not any(t[j] == "d" and t[j - 1] in ("{", ";", "}") for j in range(1, len(t)))
+                and not any(t[j] in ("T", "d") and t[j - 1] in ("=", ":") for j in range(1, len(t)))]
+    tstrings = [list(x) for x in dict.fromkeys(tuple(t) for t in tstrings)]
+
+    def render_t(toks):
+        out = []
+        for j, t in enumerate(toks):
+            nxt = toks[j + 1] if j + 1 < len(toks) else ""
+            prv = toks[j - 1] if j else ""
+            if t == "T": out.append("tg" if j == 1 else "K%d" % j)
+            elif t == "s": out.append(rng.choice(["int", "unsigned", "long", "char"]))
+            elif t == "d": out.append("m%d" % j if nxt == ":" or prv == "e" else rng.choice(["m%d", "a%d [ 2 ]", "* p%d", "( * f%d ) ( void )"]) % j)
+            elif t == "e": out.append(rng.choice(["1", "2 + 3", "sizeof ( int )"]))
+            else: out.append(t)
+        return " ".join(out) + " ;"
+    ttexts = [render_t(t) for t in tstrings]
+    tlines = ["2,1,0,2,%s a %s" % ("d" * 31, txt.encode().hex()) for txt in ttexts]
+    timpl = stages.run_harness(ctx, "tree", tlines)
+    tmodel = leanb.model("tag", "\n".join(" ".join(t) for t in tstrings) + "\n")
+
+    def tag_sexpr(dump):
+        recs, order = {}, []
+        for r in dump.split(" | ")[0].split(" ; ")[1:]:
+            w = r.split()
+            if w[0].startswith("N"):
+                recs[int(w[0][1:])] = (w[1], w[w.index(":") + 1:])
+                order.append(int(w[0][1:]))
+        top = [i for i in order if recs[i][0] in ("StructTypeSpecifier", "UnionTypeSpecifier", "EnumTypeSpecifier")]
+        if not top:
+            return None
+        kind, hs = recs[top[0]]
+        # holders: keyword, attributes, tag, open brace, declarations, close brace, attributes
+        lists = [h for h in " ".join(hs).replace("L(", " L(").split(" L(")[1:]]
+        toks = [h for h in hs if re.fullmatch(r"t\d+", h)]
+        if len(toks) != 4:
+            return "?holders"
+        kw, tagt, ob, cb = toks
+        name = "Struct" if kind != "EnumTypeSpecifier" else "Enum"
+        if ob == "t0":
+            return name + "Ref"
+        ents = re.findall(r"(\d+),\d+", lists[1].split(")")[0])
+        out = []
+        for e in ents:
+            k, h = recs[int(e)]
+            hj = " ".join(h)
+            if k == "FieldDeclaration":
+                ls = re.findall(r"L\(([^)]*)\)", hj)
+                ds = []
+                for d_ in re.findall(r"(\d+),\d+", ls[1]):
+                    dk, dh = recs[int(d_)]
+                    ds.append(("B" if dh[0] != "n-" else "U") if dk == "BitfieldDeclarator" else "D")
+                out.append("(Field %d%s)" % (len(re.findall(r"(\d+),\d+", ls[0])), "".join(" " + x for x in ds)))
+            elif k == "IncompleteDeclaration":
+                out.append("(Incomplete %d)" % len(re.findall(r"(\d+),\d+", re.findall(r"L\(([^)]*)\)", hj)[0])))
+            elif k == "EnumeratorDeclaration":
+                out.append("E" + ("=" if h[-2] != "n-" else "") + ("," if h[-1] != "t0" else ""))
+            else:
+                out.append("?" + k)
+        return "(" + name + ("T" if tagt != "t0" else "") + "".join(" " + x for x in out) + ")"
+    nt_ok = nt_fail = nt_dis = nt_skip = nt_lenient = 0
+    for t, txt, i, m, l in zip(tstrings, ttexts, timpl, tmodel, tlines):
+        if i.startswith(("CRASH", "HANG")):
+            viol("crash:" + txt[:80], "parsing %r: %s" % (txt, i[:200]), txt, l); continue
+        if m == "UNMODELLED":
+            continue
+        if m.startswith("REST"):
+            nt_skip += 1                      # what follows the specifier (declarators, further specifiers) is the declaration's business
+            continue
+        try:
+            ntok = int(i.split(" ;")[0]) - 2
+        except ValueError:
+            ntok = -1
+        diags = i.split(" | ")[-1].strip() or "-"
+        full = re.search(r"N0 \w+ f1 l%d " % ntok, i) is not None
+        gs = tag_sexpr(i) if diags == "-" and full else None
+        gs = gs or "FAIL"
+        ms = m[2:] if m[:2] in ("0 ", "1 ") else "FAIL"
+        if ms == "FAIL": nt_fail += 1
+        else: nt_ok += 1
+        if m.startswith("0 "): nt_lenient += 1
+        if gs != ms:
+            nt_dis += 1
+            derivable = m.startswith("1 ")
+            if nt_dis <= 4:
+                ctx.report(("tag:" if derivable else "tag-corr:") + txt[:100],
+                           "specifier %r: the parser built %s, %s %s" % (txt, gs, "the grammar (Lean model of the specifier parser, proved to invert the grammar's printing) gives" if derivable else "the Lean model of the specifier parser gives", ms),
+                           {"component": "tree", "case": l, "impl": gs, "model": ms, "tokens": " ".join(t)}, no_input=not derivable)
+            if derivable:
+                nviol += 1
+    ctx.notes["tag_specifier_model"] = {"strings": len(tstrings), "parsed_by_both": nt_ok, "of_which_not_derivable_in_C11": nt_lenient, "rejected_by_model": nt_fail,
+                                        "left_to_the_declaration": nt_skip, "disagreements": nt_dis}
     # --- (1) operator+ : complete translation validation
     impl_tab = stages.run_harness(ctx, "accept", ["ctxadd"])[0].strip()
     model_tab = leanb.model("stmtctx", "ctxadd\n")[0].strip()
